@@ -26,6 +26,7 @@ import (
 
 type Clause struct {
 	Label string
+	Group string // proof group ("" = main): a pseudo property G<n> in the braces, see activeGroup
 	Props []string
 	Expr  *CExpr
 	Src   string
@@ -255,7 +256,13 @@ func parseClause(s string, line int) (*Clause, error) {
 	if strings.HasPrefix(s, "{") {
 		j := strings.Index(s, "}")
 		if j > 0 {
-			cl.Props = strings.FieldsFunc(s[1:j], func(r rune) bool { return r == ',' || r == ' ' })
+			for _, it := range strings.FieldsFunc(s[1:j], func(r rune) bool { return r == ',' || r == ' ' }) {
+				if len(it) >= 2 && it[0] == 'G' && it[1] >= '0' && it[1] <= '9' {
+					cl.Group = it
+				} else {
+					cl.Props = append(cl.Props, it)
+				}
+			}
 			s = strings.TrimSpace(s[j+1:])
 		}
 	}
@@ -800,3 +807,14 @@ func (p *cparser) primary() *CExpr {
 	p.fail("unexpected token %q", t.text)
 	return nil
 }
+
+// Proof groups. A clause marked {G2} belongs to proof group G2. The MAIN pass over a function sees the contracts as if the
+// grouped clauses did not exist (neither assumed nor proved, at the function's own clauses and at call sites alike). The
+// GROUP pass sees every clause, and emits obligations only for the clauses of its group: what the main pass proved
+// (ungrouped invariants, postconditions, safety) is used there as it stands - an invariant proved inductive on its own
+// may be assumed when a further invariant is proved inductive relative to it. Purpose: frame-like invariants that are
+// cheap to prove but make the context of the expensive content clauses too large for the solvers.
+var activeGroup string
+
+func clauseOn(c *Clause) bool  { return c.Group == "" || activeGroup != "" }
+func clauseEmit(c *Clause) bool { return c.Group == activeGroup }
